@@ -21,7 +21,8 @@ func runtimeStack(b []byte) int { return runtime.Stack(b, false) }
 // from the property statement.
 
 type c10Op struct {
-	Kind   int    `json:"kind"` // 0 slice write, 1 reader with Len, 2 reader without Len
+	Kind   int    `json:"kind"` // 0 slice write, 1 reader with Len, 2 reader without Len, 3 the same wrapped in io.LimitReader with a generous cap (Cap bytes more than there are)
+	Cap    int    `json:"cap,omitempty"`
 	Data   []byte `json:"data"`
 	Chunks []int  `json:"chunks,omitempty"`
 	FailAt int    `json:"fail_at"`
@@ -82,7 +83,10 @@ func c10GenSide(t *verifrt.Tape, mem int, faulty bool, resp bool) c10Side {
 			sz = t.Range(0, rem)
 		}
 		rem -= sz
-		op := c10Op{Kind: t.Draw(3), Data: randBytes(t, sz, c10Alphabet), FailAt: -1}
+		op := c10Op{Kind: t.Draw(4), Data: randBytes(t, sz, c10Alphabet), FailAt: -1}
+		if op.Kind == 3 {
+			op.Cap = []int{0, 1, 7, 100, 1 << 20}[t.Draw(5)]
+		}
 		if op.Kind != 0 {
 			nc := t.Draw(4)
 			for j := 0; j < nc; j++ {
@@ -90,6 +94,9 @@ func c10GenSide(t *verifrt.Tape, mem int, faulty bool, resp bool) c10Side {
 			}
 			if faulty && t.Draw(3) == 0 {
 				op.FailAt = t.Range(0, sz)
+				if op.Kind == 3 && op.Cap == 0 {
+					op.Cap = 1 // a cap equal to the data hides a failure that comes after the last byte
+				}
 			}
 		}
 		s.Ops = append(s.Ops, op)
@@ -414,6 +421,8 @@ func c10Exec(sc *c10Scenario, mem int, res *RunResult, variant string) *c10Outco
 				it, n, err = tx.WriteRequestBody(op.Data)
 			case 1:
 				it, n, err = tx.ReadRequestBodyFrom(newReader(op.Data, op.Chunks, op.FailAt, true))
+			case 3:
+				it, n, err = tx.ReadRequestBodyFrom(io.LimitReader(newReader(op.Data, op.Chunks, op.FailAt, false), int64(len(op.Data)+op.Cap)))
 			default:
 				it, n, err = tx.ReadRequestBodyFrom(newReader(op.Data, op.Chunks, op.FailAt, false))
 			}
@@ -579,6 +588,8 @@ func c10Exec(sc *c10Scenario, mem int, res *RunResult, variant string) *c10Outco
 					it, n, err = tx.WriteResponseBody(op.Data)
 				case 1:
 					it, n, err = tx.ReadResponseBodyFrom(newReader(op.Data, op.Chunks, op.FailAt, true))
+				case 3:
+					it, n, err = tx.ReadResponseBodyFrom(io.LimitReader(newReader(op.Data, op.Chunks, op.FailAt, false), int64(len(op.Data)+op.Cap)))
 				default:
 					it, n, err = tx.ReadResponseBodyFrom(newReader(op.Data, op.Chunks, op.FailAt, false))
 				}
